@@ -3,7 +3,7 @@ import Qryn.Read.JsonPathSyntax
 import Driver.C07
 import Std.Data.HashMap
 /-! Line protocol for C09. Ops:
-    `c09run <mode> <ctx> <plan> <regexes> <templates> <json> <logfmt> <batches>`  mode = model | spec
+    `c09run <mode> <ctx: from to limit flushAt maxSeries orderAsc> <plan> <regexes> <templates> <json> <logfmt> <batches>`  mode = model | spec
     `c09bp <tags> <absent>`
     The abstract functions of the model are instantiated here: float64 = Lean `Float` with a decimal parser,
     RE2 = a small backtracking matcher over the AST the harness got from regexp/syntax, templates = the token
@@ -161,7 +161,8 @@ def tplEval (toks : List TplTok) (data : Labels) : Option Bytes :=
     | .field n => some (out ++ data.get n)
     | .errIf n v => if data.get n = v then none else some out) []
 
-/- JSON tree, prefix tokens: O k<hex> <val> ... E | A <val> ... E | S<hex> | R<hex> | B -/
+/- JSON tree, prefix tokens: O<hex source text> k<hex> <val> ... E | A<hex source text> <val> ... E | S<hex> | R<hex> | B;
+   the document is preceded by V1 / V0: `jx.Valid` of the whole line -/
 mutual
 def jval? : Nat → List String → Option (JVal × List String)
   | 0, _ => none
@@ -169,8 +170,8 @@ def jval? : Nat → List String → Option (JVal × List String)
     match toks with
     | [] => none
     | t :: rest =>
-      if t = "O" then do let (kvs, r) ← jkvs? fuel rest; some (.obj kvs, r)
-      else if t = "A" then do let (xs, r) ← jlist? fuel rest; some (.arr xs, r)
+      if t.startsWith "O" then do let (kvs, r) ← jkvs? fuel rest; some (.obj (← ofHex (tail1 t)) kvs, r)
+      else if t.startsWith "A" then do let (xs, r) ← jlist? fuel rest; some (.arr (← ofHex (tail1 t)) xs, r)
       else if t = "B" then some (.bad, rest)
       else if t.startsWith "S" then do some (.str (← ofHex (tail1 t)), rest)
       else if t.startsWith "R" then do some (.raw (← ofHex (tail1 t)), rest)
@@ -201,11 +202,14 @@ def jlist? : Nat → List String → Option (JList × List String)
         some (.cons v more, r2)
 end
 
-def jdoc? (s : String) : Option JVal :=
-  let toks := s.splitOn ","
-  match jval? (toks.length + 2) toks with
-  | some (v, []) => some v
-  | _ => none
+def jdoc? (s : String) : Option (Bool × JVal) :=
+  match s.splitOn "," with
+  | v :: toks =>
+    if v != "V1" && v != "V0" then none else
+    match jval? (toks.length + 2) toks with
+    | some (d, []) => some (v = "V1", d)
+    | _ => none
+  | [] => none
 
 def pairs? (s : String) : Option (List (Bytes × Bytes)) :=
   if s = "" || s = "_" then some [] else
@@ -333,7 +337,7 @@ def fnv1a (b : Bytes) : UInt64 := b.foldl (fun h c => (h ^^^ c.toUInt64) * 10995
 structure Tables where
   regexes : Std.HashMap String Re
   templates : Std.HashMap String (List TplTok)
-  json : Std.HashMap String JVal
+  json : Std.HashMap String (Bool × JVal)
   logfmt : Std.HashMap String (List (Bytes × Bytes))
 
 def numCmpF (fn : String) (x : Bytes) (lit : String) : Bool :=
@@ -347,7 +351,8 @@ def envOf (t : Tables) : Env Float where
   o := { reMatch := fun pat s => match t.regexes[hexKey pat]? with | some r => reSearch r s | none => false,
          jsonLabels := fun _ => [], isNum := fun x => (parseFloat x).isSome, numCmp := numCmpF, lower := lowerB }
   num := floatOps
-  jsonDecode := fun m => (t.json[hexKey m]?).getD .bad
+  jsonDecode := fun m => ((t.json[hexKey m]?).map (·.2)).getD .bad
+  jsonValid := fun m => ((t.json[hexKey m]?).map (·.1)).getD false
   logfmtDecode := fun m => (t.logfmt[hexKey m]?).getD []
   tpl := fun tp data => match t.templates[hexKey tp]? with | some toks => tplEval toks data | none => none
   hash := fnv1a
@@ -395,8 +400,8 @@ def tag? : String → Option StageTag
   | "drop" => some .drop | _ => none
 
 def handle : List String → Option String
-  | ["c09run", mode, fromNs, toNs, limit, flushAt, maxSeries, st, agg, aggBy, aggCmp, vec, res, tps, js, lf, bs] => do
-    let c : Read.Ctx := ⟨← fromNs.toInt?, ← toNs.toInt?, ← limit.toInt?, ← flushAt.toNat?, ← maxSeries.toNat?⟩
+  | ["c09run", mode, fromNs, toNs, limit, flushAt, maxSeries, asc, st, agg, aggBy, aggCmp, vec, res, tps, js, lf, bs] => do
+    let c : Read.Ctx := ⟨← fromNs.toInt?, ← toNs.toInt?, ← limit.toInt?, ← flushAt.toNat?, ← maxSeries.toNat?, asc = "1"⟩
     let p ← plan? st agg aggBy aggCmp vec
     let t : Tables := ⟨← table? (fun s => do
         let toks := s.splitOn ","
